@@ -105,12 +105,21 @@ def r2_compact(ctx):
     cl = [(bi, t) for bi, t in c.calls_to("Environment::compact_locals")]
     ok1 = len(cl) == 1 and k in fl.backward({op_place(cl[0][1]["args"][2])["l"]}) if cl and op_place(cl[0][1]["args"][2]) else False
     ctx.check(ok1, R, c.key + "|compact_locals-arg", "env.compact_locals receives the keep_indices value", "compact_locals no longer receives the keep_indices list", c.loc(0))
-    ins = [(bi, t) for bi, t in c.calls() if (t.get("callee") or "").endswith("HashMap::insert")]
+    # the map the bindings are rewritten through (receiver of the HashMap::get whose result becomes the new index) derives from the SAME keep list:
+    # filled by insert(old, new) in a loop over it, or collected from an iterator chain over it
+    TCM = ("Iterator::next", "Iterator::enumerate", "slice::iter", "IntoIterator::into_iter", "Deref::deref", "Iterator::map", "Iterator::collect",
+           "Iterator::copied", "Iterator::cloned", "Iterator::zip", "Vec::iter", "FromIterator::from_iter", "Iterator::rev")
     ok2 = False
-    for bi, t in ins:
-        key = op_place(t["args"][1])
-        if key and k in fl.backward({key["l"]}, through_calls=("Iterator::next", "Iterator::enumerate", "slice::iter", "IntoIterator::into_iter", "Deref::deref")):
-            ok2 = True
+    for bi, t in c.calls():
+        if (t.get("callee") or "").endswith("HashMap::get") and t["args"] and op_place(t["args"][0]):
+            recv = fl0.canon_op(t["args"][0])
+            if k in fl.backward({op_place(t["args"][0])["l"]}, through_calls=TCM):
+                ok2 = True
+            for bi2, t2 in c.calls():
+                if (t2.get("callee") or "").endswith("HashMap::insert") and len(t2["args"]) > 1 and recv and fl0.canon_op(t2["args"][0]) == recv:
+                    key = op_place(t2["args"][1])
+                    if key and k in fl.backward({key["l"]}, through_calls=TCM):
+                        ok2 = True
     ctx.check(ok2, R, c.key + "|index_mapping", "the old->new index map is keyed by the elements of the same keep_indices list",
               "the index map applied to the bindings is not built from the keep list sent to the worker", c.loc(0))
     # bindings rewritten through the map
